@@ -24,6 +24,7 @@ META = {
     ),
     "assumptions": ["pins shorter/longer/wrong-class are executed under the totality monitor only", "national_checksum_digits pinned only where no computing algorithm exists"],
     "prelude": False,
+    "threads_copy": False,
     "min_distinct": {"quick": 5000, "thorough": 150000},
 }
 SIZES = {"quick": dict(seeds=24, pin_draws=30, battery=6), "thorough": dict(seeds=1000, pin_draws=400, battery=100)}
